@@ -18,7 +18,7 @@
    FUEL: every lemma is for ALL fuel > length buf — the hand models' own choice S (length buf) is
    one instance; out-of-fuel ([Err gfuel]) is thereby excluded for the generated functions. *)
 From GV Require Import Lib.Bytes Lib.Res Lib.GoSem Gen.Consts Gen.Funcs Model.TTHeader Spec.FrameLayout
-     Proofs.TTHeaderLib Proofs.TTHeaderSec Proofs.GenLib Proofs.GenEquivTTH.
+     Proofs.TTHeaderLib Proofs.TTHeaderSec Proofs.TTHeaderDec Proofs.GenLib Proofs.GenEquivTTH.
 From Coq Require Import ZifyN ZifyNat ZifyBool.
 Open Scope N_scope.
 
@@ -457,3 +457,239 @@ Theorem g_ttheader_readKVInfo_eq fuel buf idx :
   unerr (g_ttheader_readKVInfo fuel (Z.of_N idx) buf) =
   rmap kvemb (read_kv_info (S (length buf)) buf idx None None).
 Proof. intros W Hb Hi Hf. apply sim_unerr, g_ttheader_readKVInfo_sim; assumption. Qed.
+
+(* =====================================================================================
+   Decode
+   ===================================================================================== *)
+(* ---------- the transform-id loop: make([]uint8, n); for i < n { ids[i] = info[hdIdx]; hdIdx++ } ---------- *)
+Lemma index_lt {A} (l : list A) i x : index l i = Ok x -> i < len l.
+Proof.
+  unfold index. destruct (nth_error l (N.to_nat i)) eqn:E; [|discriminate]. intros _.
+  assert (nth_error l (N.to_nat i) <> None) as H by congruence. apply nth_error_Some in H. unfold len. lia.
+Qed.
+
+Lemma gstore_ok buf i x : i < len buf -> exists buf', gstore buf (Z.of_N i) x = Ok buf' /\ len buf' = len buf.
+Proof.
+  intros H. unfold gstore, gput. destruct (Z.ltb_spec (Z.of_N i) 0); [lia|]. rewrite N2Z.id.
+  change (len [gbyte x]) with 1. destruct (N.leb_spec (i + 1) (len buf)); [|lia].
+  eexists. split; [reflexivity|]. cbv zeta. rewrite !len_app. rewrite take_len by lia. rewrite drop_len by lia.
+  change (len [gbyte x]) with 1. lia.
+Qed.
+
+Lemma gindex_index b i : gindex b (Z.of_N i) = do x <- index b i; Ok (Z.of_N x).
+Proof. unfold gindex. destruct (Z.ltb_spec (Z.of_N i) 0); [lia|]. rewrite N2Z.id. reflexivity. Qed.
+
+Lemma tr_loop_sim (St : Type) (mN : St -> Z -> res (St * bytes * gerror)) fuel info nt :
+  glen_ok info -> nt < 256 ->
+  forall lf idx trs i,
+    i <= nt -> len trs = nt -> (N.to_nat (nt - i) < lf)%nat ->
+    match read_transforms info idx (N.to_nat (nt - i)) with
+    | Ok idx' => exists trs', g_ttheader_Decode_loop1 St mN fuel info (Z.of_N nt) lf (Z.of_N idx) trs (Z.of_N i)
+                              = Ok (inl (Z.of_N idx', trs', Z.of_N nt))
+    | Err _ => False
+    | Panic w => g_ttheader_Decode_loop1 St mN fuel info (Z.of_N nt) lf (Z.of_N idx) trs (Z.of_N i) = Panic w
+    | OOB => g_ttheader_Decode_loop1 St mN fuel info (Z.of_N nt) lf (Z.of_N idx) trs (Z.of_N i) = OOB
+    end.
+Proof.
+  intros Hb Hnt. unfold glen_ok, glen in Hb.
+  induction lf as [|lf IH]; intros idx trs i Hi Ht Hlf; [lia|].
+  cbn [g_ttheader_Decode_loop1].
+  destruct (Z.ltb_spec (Z.of_N i) (Z.of_N nt)) as [Hlt|Hge].
+  - replace (N.to_nat (nt - i)) with (S (N.to_nat (nt - (i + 1)))) by lia. cbn [read_transforms].
+    rewrite gindex_index. destruct (index info idx) as [x|e|w|] eqn:E; cbn [bind]; try reflexivity.
+    + apply index_lt in E.
+      destruct (gstore_ok trs i (Z.of_N x) ltac:(lia)) as (trs' & -> & Hl'). cbn [bind].
+      rewrite (wraps64_small (Z.of_N idx + 1)) by lia. rewrite (wraps64_small (Z.of_N i + 1)) by lia.
+      replace (Z.of_N idx + 1)%Z with (Z.of_N (idx + 1)) by lia.
+      replace (Z.of_N i + 1)%Z with (Z.of_N (i + 1)) by lia.
+      apply IH; lia.
+    + unfold index in E. destruct (nth_error info (N.to_nat idx)); discriminate.
+  - replace (N.to_nat (nt - i)) with 0%nat by lia. cbn [read_transforms]. assert (i = nt) by lia. subst i.
+    eexists. reflexivity.
+Qed.
+
+Lemma read_transforms_val n : forall info idx idx', read_transforms info idx n = Ok idx' -> idx' = idx + N.of_nat n.
+Proof.
+  induction n as [|n IH]; intros info idx idx'; cbn [read_transforms].
+  - intros H. inversion H. lia.
+  - destruct (index info idx); cbn [bind]; try discriminate. intros H. apply IH in H. lia.
+Qed.
+
+(* ---------- errors of the section reader: only the two kv classes (and the fuel artefact) ---------- *)
+Lemma read_entries_errs {K} (rd : bytes -> N -> res (K * bytes * N)) fuel : forall buf idx cnt m e,
+    read_entries rd fuel buf idx cnt m = Err e -> e = e_kv \/ e = e_fuel.
+Proof.
+  induction fuel as [|f IH]; intros buf idx cnt m e; rewrite read_entries_eq.
+  - destruct (cnt =? 0); [discriminate|]. intros H. inversion H. now right.
+  - destruct (cnt =? 0); [discriminate|].
+    destruct (rd buf idx) as [[[k v] n]|e'|w|]; cbn [wrap_kv bind]; try discriminate.
+    + apply IH.
+    + intros H. inversion H. now left.
+Qed.
+
+Lemma read_section_errs {K} (rd : bytes -> N -> res (K * bytes * N)) buf idx m e :
+  read_section rd buf idx m = Err e -> e = e_kv \/ e = e_fuel.
+Proof.
+  unfold read_section. destruct (bytes2uint16 buf idx) as [c|e'|w|]; cbn [wrap_kv bind]; try discriminate.
+  - apply read_entries_errs.
+  - intros H. inversion H. now left.
+Qed.
+
+Lemma read_kv_info_errs f : forall buf idx im sm e,
+    read_kv_info f buf idx im sm = Err e -> e = e_kv \/ e = e_infoid \/ e = e_fuel.
+Proof.
+  induction f as [|f IH]; intros buf idx im sm e.
+  - cbn [read_kv_info]. intros H. inversion H. tauto.
+  - rewrite read_kv_info_eq. destruct (drop idx buf) as [|id rest]; [discriminate|].
+    destruct (id =? 0); [apply IH|].
+    destruct (id =? 1).
+    { destruct (read_section rd_str_entry buf (idx + 1) (made sm)) as [[idx2 sm']|e'|w|] eqn:Es; cbn [bind]; try discriminate.
+      - apply IH.
+      - intros H. inversion H; subst. apply read_section_errs in Es. tauto. }
+    destruct (id =? 16).
+    { destruct (read_section rd_int_entry buf (idx + 1) (made im)) as [[idx2 im']|e'|w|] eqn:Es; cbn [bind]; try discriminate.
+      - apply IH.
+      - intros H. inversion H; subst. apply read_section_errs in Es. tauto. }
+    destruct (id =? 17).
+    { unfold read_acl. destruct (read_str2 buf (idx + 1)) as [[v n]|e'|w|]; cbn [wrap_kv bind]; try discriminate.
+      - apply IH.
+      - intros H. inversion H. tauto. }
+    intros H. inversion H. tauto.
+Qed.
+
+(* ---------- the reader ---------- *)
+(* a bufiox.Reader that can deliver exactly the bytes it was created over: the state is (bytes
+   left, bytes consumed = ReadLen); Next(n) fails with the error [er], consuming nothing, when
+   fewer than n bytes are left (C04 covers the reader itself) *)
+Definition rd_next (er : Z) (s : bytes * N) (n : Z) : res ((bytes * N) * bytes * gerror) :=
+  if (n <? 0)%Z then Ok (s, (nil : bytes), Some er)
+  else if len (fst s) <? Z.to_N n then Ok (s, (nil : bytes), Some er)
+  else Ok ((drop (Z.to_N n) (fst s), snd s + Z.to_N n), take (Z.to_N n) (fst s), gnil).
+
+(* the hand model tells apart which Next failed (by the bytes consumed: 0 / 14) and which part of
+   readKVInfo failed; Decode itself reports the reader's error, resp. ONE wrapped error *)
+Definition dcls (er e : Z) : Z :=
+  if ((e =? e_short) || (e =? e_short2))%Z then er else if (e =? e_infoid)%Z then e_kv else e.
+
+Definition dres : Type :=
+  ((bytes * N) * Z * Z * Z * gmap Z bytes * gmap bytes bytes * Z * Z * gerror)%type.
+
+Definition dec_sim (er : Z) (b : bytes) (g : res dres) (h : N * res dparam) : Prop :=
+  let st := (drop (fst h) b, fst h) in
+  match snd h with
+  | Ok r => g = Ok (st, Z.of_N (d_flags r), d_seq r, Z.of_N (d_pid r), option_map zk (d_int r), d_str r,
+                    d_hlen r, d_plen r, gnil)
+  | Err e => exists fl sq pid im sm hl pl, g = Ok (st, fl, sq, pid, im, sm, hl, pl, Some (dcls er e))
+  | Panic w => g = Panic w
+  | OOB => g = OOB
+  end.
+
+Lemma meta_parts m0 m1 m2 m3 m4 m5 m6 m7 m8 m9 m10 m11 m12 m13 :
+  let meta := [m0; m1; m2; m3; m4; m5; m6; m7; m8; m9; m10; m11; m12; m13] in
+  is_ttheader meta = Ok (N.land (((m4 * 256 + m5) * 256 + m6) * 256 + m7) c_mask =? c_magic) /\
+  gslice_to meta 4 = Ok [m0; m1; m2; m3] /\
+  gslice_from meta 6 = Ok [m6; m7; m8; m9; m10; m11; m12; m13] /\
+  gslice_range meta 8 12 = Ok [m8; m9; m10; m11] /\
+  gslice_range meta 12 14 = Ok [m12; m13].
+Proof. repeat split; reflexivity. Qed.
+
+Lemma index_wf (l : bytes) i x : wf l -> index l i = Ok x -> x < 256.
+Proof.
+  intros W. unfold index. destruct (nth_error l (N.to_nat i)) eqn:E; [|discriminate].
+  intros H. inversion H; subst. apply nth_error_In in E. unfold wf in W. rewrite Forall_forall in W. apply W, E.
+Qed.
+
+Lemma index_not_err {A} (l : list A) i e : index l i <> Err e.
+Proof. unfold index. destruct (nth_error l (N.to_nat i)); discriminate. Qed.
+
+Theorem g_ttheader_Decode_sim er b fuel :
+  wf b -> glen_ok b -> (length b < fuel)%nat ->
+  dec_sim er b (g_ttheader_Decode (bytes * N) (rd_next er) fuel (b, 0)) (decode b).
+Proof.
+  intros W Hb Hf. pose proof Hb as Hb'. unfold glen_ok, glen in Hb'.
+  unfold g_ttheader_Decode, decode. change c_meta with 14.
+  unfold rd_next at 1. cbn [fst snd]. change (14 <? 0)%Z with false. cbv iota. change (Z.to_N 14) with 14.
+  destruct (N.ltb_spec (len b) 14) as [Hs|Hs].
+  { cbn [bind is_nil negb dec_sim fst snd]. rewrite drop_0. repeat eexists. }
+  cbn [bind is_nil gnil negb]. change (0 + 14) with 14.
+  destruct (explode14 b Hs) as (m0 & m1 & m2 & m3 & m4 & m5 & m6 & m7 & m8 & m9 & m10 & m11 & m12 & m13 & rest & ->).
+  destruct (fields_explicit m0 m1 m2 m3 m4 m5 m6 m7 m8 m9 m10 m11 m12 m13 rest)
+    as (_ & _ & _ & _ & _ & Ft & Fd & _ & Fl).
+  cbv zeta in Ft, Fd, Fl. change c_meta with 14 in Ft, Fd.
+  rewrite Ft, Fd, decode_meta_explicit.
+  destruct (meta_parts m0 m1 m2 m3 m4 m5 m6 m7 m8 m9 m10 m11 m12 m13) as (P1 & P2 & P3 & P4 & P5).
+  cbv zeta in P1, P2, P3, P4, P5.
+  rewrite g_ttheader_IsTTHeader_eq, P1. cbn [bind].
+  destruct (wf_explode _ _ _ _ _ _ _ _ _ _ _ _ _ _ _ W)
+    as (H0 & H1 & H2 & H3 & H4 & H5 & H6 & H7 & H8 & H9 & H10 & H11 & H12 & H13 & Wr).
+  destruct (N.land (((m4 * 256 + m5) * 256 + m6) * 256 + m7) c_mask =? c_magic); cbn [negb].
+  2:{ cbn [dec_sim fst snd]. rewrite Fd. repeat eexists. }
+  rewrite P2. cbn [bind]. rewrite g_ttheader_Bytes2Uint32NoCheck_eq. cbn [be_u32 rmap bind].
+  rewrite P3. cbn [bind]. rewrite g_ttheader_Bytes2Uint16NoCheck_eq. cbn [be_u16 rmap bind].
+  rewrite P4. cbn [bind]. rewrite g_ttheader_Bytes2Uint32NoCheck_eq. cbn [be_u32 rmap bind].
+  rewrite P5. cbn [bind]. rewrite g_ttheader_Bytes2Uint16NoCheck_eq. cbn [be_u16 rmap bind].
+  set (tl := ((m0 * 256 + m1) * 256 + m2) * 256 + m3).
+  set (fl := m6 * 256 + m7).
+  set (sq := ((m8 * 256 + m9) * 256 + m10) * 256 + m11).
+  set (sf := m12 * 256 + m13).
+  assert (Htl : tl < 4294967296) by (unfold tl; lia).
+  assert (Hsq : sq < 4294967296) by (unfold sq; lia).
+  change size_bits with 32. change (2 ^ 32) with 4294967296.
+  assert (Esz : wrapu 32 (Z.of_N sf * 4) = Z.of_N ((sf * 4) mod 4294967296)).
+  { unfold wrapu. rewrite N2Z.inj_mod, N2Z.inj_mul. reflexivity. }
+  rewrite Esz. cbv zeta.
+  set (size := (sf * 4) mod 4294967296).
+  assert (Hsz : size < 4294967296) by (unfold size; apply N.mod_lt; lia).
+  unfold u32 at 1, two32. rewrite (N.mod_small size) by exact Hsz. change c_max with 65536.
+  destruct (N.ltb_spec 65536 size) as [Hmax|Hmax]; destruct (Z.gtb_spec (Z.of_N size) 65536) as [Zmax|Zmax]; try lia.
+  { cbn [orb dec_sim fst snd]. rewrite Fd. repeat eexists. }
+  destruct (N.ltb_spec size 2) as [Hmin|Hmin]; destruct (Z.ltb_spec (Z.of_N size) 2) as [Zmin|Zmin]; try lia.
+  { cbn [orb dec_sim fst snd]. rewrite Fd. repeat eexists. }
+  cbn [orb].
+  (* the second Next *)
+  unfold rd_next at 1. cbn [fst snd]. destruct (Z.ltb_spec (Z.of_N size) 0); [lia|]. rewrite N2Z.id.
+  destruct (N.ltb_spec (len rest) size) as [Hsh|Hsh].
+  { cbn [bind is_nil negb dec_sim fst snd]. rewrite Fd. repeat eexists. }
+  cbn [bind is_nil gnil negb].
+  set (info := take size rest).
+  assert (Wi : wf info) by (apply GenLib.wf_take; exact Wr).
+  assert (Li : len info = size) by (apply take_len; exact Hsh).
+  assert (Lb : length info = N.to_nat size) by (unfold len in Li; lia).
+  assert (Gi : glen_ok info) by (unfold glen_ok, glen; rewrite Li; lia).
+  assert (Hfi : (length info < fuel)%nat) by (unfold len in *; lia).
+  unfold decode_info. fold info.
+  change (gindex info 0) with (do x <- index info 0; Ok (Z.of_N x)).
+  destruct (index info 0) as [pid|e|w|] eqn:Ep; cbn [bind]; [|exfalso; exact (index_not_err _ _ _ Ep)|reflexivity..].
+  rewrite g_ttheader_checkProtocolID_eq. cbn [bind].
+  destruct (check_protocol_id pid); cbn [negb is_nil gnil].
+  2:{ cbn [dec_sim fst snd]. rewrite <- (drop_drop size 14), Fd. repeat eexists. }
+  change (gindex info 1) with (do x <- index info 1; Ok (Z.of_N x)).
+  destruct (index info 1) as [nt|e|w|] eqn:En; cbn [bind]; [|exfalso; exact (index_not_err _ _ _ En)|reflexivity..].
+  pose proof (index_wf info 1 nt Wi En) as Hnt.
+  rewrite (wraps64_small (Z.of_N size - 2)) by lia.
+  destruct (Z.ltb_spec (Z.of_N size - 2) (Z.of_N nt)) as [Htr|Htr].
+  { cbn [dec_sim fst snd]. rewrite <- (drop_drop size 14), Fd. repeat eexists. }
+  unfold gmake_bytes. destruct (Z.ltb_spec (Z.of_N nt) 0); [lia|]. cbn [bind].
+  set (trs := repeat 0 (Z.to_nat (Z.of_N nt))).
+  assert (Lt : len trs = nt) by (unfold len, trs; rewrite repeat_length; lia).
+  pose proof (tr_loop_sim (bytes * N) (rd_next er) fuel info nt Gi Hnt fuel 2 trs 0 ltac:(lia) Lt ltac:(unfold len in *; lia)) as L.
+  rewrite N.sub_0_r in L. change (Z.of_N 2) with 2%Z in L. change (Z.of_N 0) with 0%Z in L.
+  destruct (read_transforms info 2 (N.to_nat nt)) as [idx|e|w|] eqn:Et; [|contradiction|rewrite L; reflexivity..].
+  destruct L as [trs' L]. rewrite L. cbn [bind].
+  apply read_transforms_val in Et. rewrite N2Nat.id in Et.
+  pose proof (g_ttheader_readKVInfo_sim fuel info idx Wi Gi ltac:(lia) Hfi) as K.
+  pose proof (kv_total (S (length info)) info idx None None ltac:(lia) ltac:(unfold len in *; lia)) as [_ Knf].
+  destruct (read_kv_info (S (length info)) info idx None None) as [[im sm]|e|w|] eqn:Ek; cbn [sim] in K;
+    [| |rewrite K; reflexivity..].
+  - rewrite K. unfold kvemb. cbn [bind fst snd is_nil gnil negb dec_sim d_flags d_seq d_pid d_int d_str d_hlen d_plen].
+    rewrite <- (drop_drop size 14), Fd.
+    rewrite (wrapu_id 32 (Z.of_N size + 14)) by (unfold in_u; lia).
+    rewrite (wraps64_small (Z.of_N tl + 4)) by lia. rewrite wraps64_small by lia.
+    rewrite wraps_ts32 by exact Hsq.
+    unfold u32, two32. rewrite (N.mod_small size) by exact Hsz. change c_meta with 14. change c_s32 with 4.
+    rewrite (N.mod_small (size + 14)) by lia.
+    replace (Z.of_N (size + 14)) with (Z.of_N size + 14)%Z by lia. reflexivity.
+  - destruct K as [[x1 x2] K]. rewrite K. cbn [bind is_nil negb gerr_deref dec_sim fst snd].
+    rewrite <- (drop_drop size 14), Fd.
+    destruct (read_kv_info_errs _ _ _ _ _ _ Ek) as [E1 | [E1 | E1]]; subst e; [repeat eexists.. | exfalso; apply Knf; reflexivity].
+Qed.
